@@ -3,6 +3,7 @@ package rules
 import (
 	"go/ast"
 	"go/types"
+	"golang.org/x/tools/go/types/typeutil"
 	"sort"
 	"strings"
 
@@ -55,6 +56,47 @@ func runC15(p *eng.Prog, r *eng.Report, tier string) {
 	c15SenderIsPeer(c)
 	// C15.11 the peer's close is answered whatever the local flush says
 	c15CloseAnswered(c)
+	// C15.15 a packet whose attribute values do not fit their types (seq,
+	// block-size: strconv errors inside Decode) is the sender's mistake: the
+	// handlers do not return the decoder's error as it is (a handler error ends
+	// the whole XMPP session), it goes through a refusal that answers with a
+	// stanza error
+	{
+		n := 0
+		for _, name := range []string{"(*Handler).HandleIQ", "(*Handler).HandleMessage"} {
+			f := c.fn("C15.15", "ibb", name)
+			if f == nil {
+				continue
+			}
+			g := f.Graph()
+			for _, rs := range g.Returns {
+				if len(rs.Results) != 1 {
+					continue
+				}
+				pt, _ := g.Where(rs)
+				nrm := f.Norm(rs.Results[0], &pt)
+				if !eng.Glob("encoding/xml.Decoder.Decode[*](*)", nrm) && !eng.Glob("encoding/xml.Decoder.DecodeElement[*](*)", nrm) {
+					if strings.Contains(nrm, "encoding/xml.Decoder.Decode") {
+						n++
+						// handed to a helper: the helper answers numeric errors with a stanza error
+						okh := false
+						if cl, ok := ast.Unparen(rs.Results[0]).(*ast.CallExpr); ok {
+							if fo, ok := typeutil.Callee(f.Info(), cl).(*types.Func); ok {
+								if h := c.p.FnOf(fo.Origin()); h != nil && h.Body != nil {
+									okh = h.ContainsCall(h.Body, "errors.As") != nil && (len(h.CallsDeep("stanza.IQ.Error")) > 0 || len(h.CallsDeep("ibb.errorResponder.Error")) > 0)
+								}
+							}
+						}
+						c.r.Check("C15.15", f, "decoding error of a packet handed to a refusal", "K: the helper that receives the decoder's error tells value errors apart (errors.As) and answers them with a stanza error", rs.Pos(), okh, "the helper does not answer value errors with a stanza error")
+					}
+					continue
+				}
+				n++
+				c.r.Check("C15.15", f, "decoding error of a packet returned from the handler", "K: the error of decoding a peer's packet is not returned as it is from the handler", rs.Pos(), false, "a packet with seq=\"65536\" ends the whole XMPP session with a stream error instead of being refused with bad-request")
+			}
+		}
+		c.r.Floor("C15.15", "returns of decoding errors in the ibb handlers", n, 2)
+	}
 	// C15.12 the peer check rests on address equality
 	jidEqualRule(c, "C15.12")
 	// C15.13 every packet is decoded into a fresh zero value: encoding/xml only
@@ -595,7 +637,33 @@ func c15CloseAs(c *cx, id string) {
 				})
 				return found
 			}},
-			{"close request", func(q eng.Point, nd ast.Node) bool { return f.ContainsCall(nd, "xmpp.Session.SendIQElement") != nil }},
+			{"close request", func(q eng.Point, nd ast.Node) bool {
+				if f.ContainsCall(nd, "xmpp.Session.SendIQElement") != nil {
+					return true
+				}
+				// ... or a helper of Conn whose every path sends it
+				found := false
+				ast.Inspect(nd, func(x ast.Node) bool {
+					if cl, ok := x.(*ast.CallExpr); ok && !found {
+						if fo, ok := typeutil.Callee(f.Info(), cl).(*types.Func); ok {
+							if h := c.p.FnOf(fo.Origin()); h != nil && h != f && strings.HasPrefix(h.Short, "ibb.(*Conn).") && h.Body != nil {
+								hg := h.Graph()
+								all := len(hg.Returns) > 0
+								sends := func(q2 eng.Point, n2 ast.Node) bool { return h.ContainsCall(n2, "xmpp.Session.SendIQElement") != nil }
+								for _, rs := range hg.Returns {
+									rp, _ := hg.Where(rs)
+									if !hg.MustPassBefore(hg.Entry(), rp, sends, nil) {
+										all = false
+									}
+								}
+								found = all
+							}
+						}
+					}
+					return !found
+				})
+				return found
+			}},
 			{"wake readers (close readReady)", wakesReaders(f)},
 		}
 		for _, rs := range g.Returns {
@@ -607,8 +675,20 @@ func c15CloseAs(c *cx, id string) {
 				continue // already closed: nothing to do
 			}
 			for _, st := range steps {
-				c.r.Check(id, f, "Close passes "+st.what, "O+S: a first Close flushes, writes the final base64 block, sends the close request and wakes readers on every non-error path", rs.Pos(), g.MustPassBefore(g.Entry(), pt, st.m, nil), "a non-error return skips "+st.what)
+				c.r.Check(id, f, "Close passes "+st.what, "O+S: a first Close flushes, writes the final base64 block, sends the close request and wakes readers on every non-error path", rs.Pos(), st.m(pt, rs) || g.MustPassBefore(g.Entry(), pt, st.m, nil), "a non-error return skips "+st.what)
 			}
+		}
+		// whatever happens to the local flush, the peer is told: every return of a
+		// first Close - error returns included - has passed the close request
+		// (otherwise the peer's reader drains what it got and then waits for an
+		// end-of-file that never comes; a second Close is a no-op)
+		for _, rs := range g.Returns {
+			pt, _ := g.Where(rs)
+			if ok, _ := g.Dominated(pt, "recv.closed"); ok {
+				continue
+			}
+			m := steps[2].m
+			c.r.Check(id, f, "peer told on every exit of Close", "O: every return of a first Close (error returns included) passes the close request", rs.Pos(), m(pt, rs) || g.MustPassBefore(g.Entry(), pt, m, nil), "this return leaves the stream closed locally without ever telling the peer")
 		}
 		for i := 0; i+1 < len(steps); i++ {
 			for _, b := range g.Blocks {
@@ -621,6 +701,19 @@ func c15CloseAs(c *cx, id string) {
 						continue // a deferred step runs when Close returns: after every other step
 					}
 					if steps[i+1].m(q, nd) {
+						// the order binds the paths that can end without an error: on a
+						// path that only leads to error returns (the flush failed) the
+						// remaining steps are best effort (the peer is still told)
+						onlyErr := true
+						for _, rs := range g.Returns {
+							rp, _ := g.Where(rs)
+							if g.RetKindOf(rs) != eng.RetError && (rp == q || g.Reachable(g.After(q), rp, nil, nil)) {
+								onlyErr = false
+							}
+						}
+						if onlyErr {
+							continue
+						}
 						c.r.Check(id, f, steps[i].what+" precedes "+steps[i+1].what, "O: order of the close steps", nd.Pos(), g.MustPassBefore(g.Entry(), q, steps[i].m, nil), steps[i+1].what+" reachable before "+steps[i].what)
 					}
 				}
